@@ -102,32 +102,37 @@ def run_extra(run):
 
 
 def random_runs(check, n=None, conform=False):
-    """random programs over the WHOLE vocabulary of the operational spec (storm.usim_program, bounds storm.BIG),
-    executed on the real code; optionally TLC checks that every recorded trace is a behaviour of USim (USimT)"""
+    """random programs over the WHOLE vocabulary of the operational spec (storm.usim_program, bounds storm.BIG, and
+    storm.BIG2: two resource types per supply, until over connectives), executed on the real code; optionally TLC
+    checks that every recorded trace is a behaviour of USim (USimT)"""
     import random
     import storm
     if n is None:
         n = 3000 if check.tier == 'quick' else 40000
-    progs = [storm.usim_program(random.Random('%d/%d' % (check.seed, i)))['roots'] for i in range(n)]
-    world = world_args(storm.BIG)
-    WORLD.clear()
-    WORLD.update(world)
-    try:
-        traces = [r[0] for r in run_many(progs, storm.BIG['NRoots'])]
-    finally:
+    out = []
+    for label, bounds, vec, m in (('big', storm.BIG, False, n), ('big2', storm.BIG2, True, max(1, n // 3))):
+        progs = [storm.usim_program(random.Random('%s%d/%d' % ('' if not vec else 'v', check.seed, i)), vec=vec)['roots']
+                 for i in range(m)]
+        world = world_args(bounds)
         WORLD.clear()
-    info = {'programs': n, 'bounds': {k: (sorted(v) if isinstance(v, (set, frozenset)) else v) for k, v in storm.BIG.items()}}
-    if conform:
-        part = traces[:4000]
-        acc = conformance(check, 'big', storm.BIG, part)
-        if acc is not None:
-            info['traces_checked_against_operational_spec'] = len(part)
-            info['accepted_as_behaviour_of_USim'] = len(acc)
-            info['not_explained'] = [progs[i] for i in range(len(part)) if i not in acc][:5]
-            check.drift += len(part) - len(acc)
-    check.extra['random_programs'] = info
-    check.programs += n
-    return [(p, t, storm.BIG['NRoots'], world) for p, t in zip(progs, traces)]
+        WORLD.update(world)
+        try:
+            traces = [r[0] for r in run_many(progs, bounds['NRoots'])]
+        finally:
+            WORLD.clear()
+        info = {'programs': m, 'bounds': {k: (sorted(v) if isinstance(v, (set, frozenset)) else v) for k, v in bounds.items()}}
+        if conform:
+            part = traces[:4000]
+            acc = conformance(check, label, bounds, part)
+            if acc is not None:
+                info['traces_checked_against_operational_spec'] = len(part)
+                info['accepted_as_behaviour_of_USim'] = len(acc)
+                info['not_explained'] = [progs[i] for i in range(len(part)) if i not in acc][:5]
+                check.drift += len(part) - len(acc)
+        check.extra['random_programs' if not vec else 'random_programs_two_resource_types'] = info
+        check.programs += m
+        out += [(p, t, bounds['NRoots'], world) for p, t in zip(progs, traces)]
+    return out
 
 
 def waiter_runs(check, kind, n=None):
